@@ -1170,11 +1170,10 @@ fn oracle_stack<W: BitArray>(rng: &mut Rng, iters: usize, rep: &mut Report) {
                 rep.eval("C16");
                 rep.eval("C18");
                 rep.count(&format!("C16.export.fill{}", ghost.len() % w as usize));
-                let expect_words = ghost.len() / w as usize + 1;
-                if v.len() != expect_words {
-                    rep.fail("C18", format!("{} => {} words exported for {} bits", desc, v.len(), ghost.len()));
-                    failed = true;
-                    break;
+                if v.len() != ghost.len() / w as usize + 1 {
+                    // format, not C16/C18: the correspondence flags format changes
+                    rep.count("C16.export_format_differs");
+                    rep.sample("C16.export_format_differs", || format!("{} => {} words exported for {} bits", desc, v.len(), ghost.len()));
                 }
                 match StackCoder::<W>::from_compressed(v) {
                     Ok(c) => coder = c,
@@ -1207,7 +1206,10 @@ fn oracle_stack<W: BitArray>(rng: &mut Rng, iters: usize, rep: &mut Report) {
                             failed = true;
                             break;
                         }
-                        if coder.len() != ghost.len() || coder.len() / w as usize + 1 != view.len() {
+                        if coder.len() / w as usize + 1 != view.len() {
+                            rep.count("C16.export_format_differs");
+                        }
+                        if coder.len() != ghost.len() {
                             rep.fail("C18", format!("{} | len => len {} / {} words in the view / {} bits written", desc, coder.len(), view.len(), ghost.len()));
                             failed = true;
                             break;
@@ -1465,7 +1467,8 @@ fn oracle_export_exhaustive<W: BitArray>(max_n: u32, rep: &mut Report) {
                 Err(_) => rep.fail("C16", format!("{} => exported {} rejected on re-import", replay(), shown)),
             }
             if nwords != bs.len() / w + 1 || last == Some(W::zero()) {
-                rep.fail("C18", format!("{} => exported {} for {} bits", replay(), shown, bs.len()));
+                rep.count("C16.export_format_differs");
+                rep.sample("C16.export_format_differs", || format!("{} => exported {} for {} bits", replay(), shown, bs.len()));
             }
             // queue: export is the zero padded bit string; decoder yields the bits first
             rep.eval("C16");
@@ -1505,6 +1508,327 @@ fn oracle_export_random<W: BitArray>(rng: &mut Rng, reps: usize, rep: &mut Repor
             }
         }
     }
+}
+
+/// bits of a word list, first word first, least significant bit first
+fn unpack<W: BitArray>(ws: &[W]) -> Vec<bool> {
+    let mut out = Vec::with_capacity(ws.len() * W::BITS);
+    for &w in ws {
+        let x = to_u128(w);
+        for i in 0..W::BITS {
+            out.push(x >> i & 1 == 1);
+        }
+    }
+    out
+}
+
+/// a stack coder brought into its state by a history `phases = [(written, read back), …]`;
+/// returns the coder, the reference content and the replay prefix. `None` (after reporting) if a
+/// read already disagreed with the reference.
+fn stack_after<W: BitArray>(
+    rng: &mut Rng,
+    phases: &[(usize, usize)],
+    rep: &mut Report,
+) -> Option<(StackCoder<W>, Vec<bool>, String)> {
+    let w = W::BITS;
+    let mut c = StackCoder::<W>::new();
+    let mut ghost: Vec<bool> = Vec::new();
+    let mut desc = format!("bits.stack {:x} | new", w);
+    for &(n, r) in phases {
+        let bs = rand_bits(rng, n);
+        desc.push_str(&format!(" | ws {}", show_bits(&bs)));
+        for &b in &bs {
+            c.write_bit(b).unwrap_infallible();
+            ghost.push(b);
+        }
+        for _ in 0..r {
+            desc.push_str(" | r");
+            let got = c.read_bit().unwrap_infallible();
+            let exp = ghost.pop();
+            rep.eval("C16");
+            if got != exp {
+                rep.fail("C16", format!("{} => read {:?} expected {:?}", desc, got, exp));
+                return None;
+            }
+        }
+    }
+    Some((c, ghost, desc))
+}
+
+/// the stack coder `c` must hold exactly `ghost`: len, is_empty, and (consuming) the pops
+fn expect_stack_content<W: BitArray>(mut c: StackCoder<W>, ghost: &[bool], desc: &str, rep: &mut Report) -> bool {
+    rep.eval("C16");
+    rep.eval("C18");
+    let l = c.len();
+    let e = SymbolCoder::is_empty(&c);
+    let mut back: Vec<bool> = c.by_ref().map(|b| b.unwrap_infallible()).collect();
+    back.reverse();
+    if back != ghost {
+        rep.fail("C16", format!("{} | drain => holds {} expected {}", desc, show_bits(&back), show_bits(ghost)));
+        return false;
+    }
+    if l != ghost.len() || e != ghost.is_empty() {
+        rep.fail("C18", format!("{} | len | empty => len {:x} is_empty {} but {} bits are on the stack", desc, l, e, ghost.len()));
+        return false;
+    }
+    true
+}
+
+/// Format of the exported words (payload bits, terminator, zero padding, `len / W + 1` words),
+/// compared with a reference packing.  This is **not** part of C16/C08/C18 (an export in another
+/// format that re-imports to the same content satisfies them), so a difference is only counted:
+/// `HIST C16.export_format_differs` + a sample; the correspondence flags any format change.
+fn note_stack_export_format<W: BitArray>(v: &[W], ghost: &[bool], desc: &str, rep: &mut Report) {
+    let mut exp = ghost.to_vec();
+    exp.push(true);
+    while exp.len() % W::BITS != 0 {
+        exp.push(false);
+    }
+    if unpack(v) != exp {
+        rep.count("C16.export_format_differs");
+        rep.sample("C16.export_format_differs", || {
+            format!("{} => exported {} for the content {} (reference packing: payload, terminator, zero padding)", desc, show_words(v), show_bits(ghost))
+        });
+    }
+}
+
+/// export → re-import, double export and guard-then-export on a stack coder that was brought
+/// into its state by writes **and reads** (in particular: nothing pending in `current_word`
+/// while the backend holds words, which plain write-then-export never reaches)
+fn stack_export_variants<W: BitArray>(rng: &mut Rng, phases: &[(usize, usize)], rep: &mut Report) {
+    // (1) export -> re-import
+    if let Some((c, ghost, desc)) = stack_after::<W>(rng, phases, rep) {
+        let desc = format!("{} | export", desc);
+        let l = c.len();
+        if l != ghost.len() {
+            rep.fail("C18", format!("{} => len {:x} before the export, {} bits written and not read back", desc, l, ghost.len()));
+        }
+        let v = c.into_compressed().unwrap_infallible();
+        note_stack_export_format(&v, &ghost, &desc, rep);
+        rep.eval("C16");
+        {
+            match StackCoder::<W>::from_compressed(v.clone()) {
+                Ok(c2) => {
+                    // (2) … and once more: export of the re-imported coder is the same words
+                    if expect_stack_content(c2, &ghost, &desc, rep) {
+                        let c3 = match StackCoder::<W>::from_compressed(v.clone()) {
+                            Ok(c3) => c3,
+                            Err(_) => {
+                                rep.fail("C16", format!("{} => second re-import of the same words rejected", desc));
+                                return;
+                            }
+                        };
+                        let desc2 = format!("{} | export", desc);
+                        let v2 = c3.into_compressed().unwrap_infallible();
+                        rep.eval("C16");
+                        if v2 != v {
+                            rep.fail("C16", format!("{} => second export {} differs from the first {}", desc2, show_words(&v2), show_words(&v)));
+                        } else if let Ok(mut c4) = StackCoder::<W>::from_compressed(v2) {
+                            // keep using it: push and pop across the old boundary
+                            let extra = rand_bits(rng, 1 + (rng.0 % 3) as usize);
+                            let mut g = ghost.clone();
+                            for &b in &extra {
+                                c4.write_bit(b).unwrap_infallible();
+                                g.push(b);
+                            }
+                            expect_stack_content(c4, &g, &format!("{} | ws {}", desc2, show_bits(&extra)), rep);
+                        } else {
+                            rep.fail("C16", format!("{} => second re-import rejected", desc2));
+                        }
+                    }
+                }
+                Err(_) => rep.fail("C16", format!("{} => re-import of own export {} rejected", desc, show_words(&v))),
+            }
+        }
+    }
+    // (3) guard, drop, then export (C08: the guard shows what the export returns and changes nothing)
+    if let Some((mut c, ghost, desc)) = stack_after::<W>(rng, phases, rep) {
+        let desc = format!("{} | getc", desc);
+        rep.eval("C08");
+        let view: Vec<W> = c.get_compressed().to_vec();
+        note_stack_export_format(&view, &ghost, &desc, rep);
+        if c.len() != ghost.len() || SymbolCoder::is_empty(&c) != ghost.is_empty() {
+            rep.fail("C08", format!("{} | len | empty => len {:x} is_empty {} after the guard, content has {} bits", desc, c.len(), SymbolCoder::is_empty(&c), ghost.len()));
+            return;
+        }
+        let again: Vec<W> = c.get_compressed().to_vec();
+        let desc = format!("{} | getc | export", desc);
+        let v = c.into_compressed().unwrap_infallible();
+        rep.eval("C08");
+        if again != view || v != view {
+            rep.fail("C08", format!("{} => first guard {} second guard {} export {}", desc, show_words(&view), show_words(&again), show_words(&v)));
+            return;
+        }
+        match StackCoder::<W>::from_compressed(v) {
+            Ok(c2) => {
+                expect_stack_content(c2, &ghost, &desc, rep);
+            }
+            Err(_) => rep.fail("C16", format!("{} => re-import rejected", desc)),
+        }
+    }
+    // (4) guard, drop, then keep writing / reading: same as a twin that was never inspected
+    if let Some((mut c, ghost, desc)) = stack_after::<W>(rng, phases, rep) {
+        rep.eval("C08");
+        let _ = c.get_compressed().len();
+        let _ = c.iter().count();
+        let d = c.as_decoder();
+        if d.len() != ghost.len() {
+            rep.fail("C18", format!("{} | getc | iter => as_decoder().len() = {:x}, content has {} bits", desc, d.len(), ghost.len()));
+        }
+        let extra = rand_bits(rng, (rng.0 % (W::BITS as u64 + 2)) as usize);
+        let mut g = ghost.clone();
+        for &b in &extra {
+            c.write_bit(b).unwrap_infallible();
+            g.push(b);
+        }
+        let desc = format!("{} | getc | iter | ws {}", desc, show_bits(&extra));
+        if !expect_stack_content(c, &g, &desc, rep) {
+            rep.fail("C08", format!("{} => content differs from the uninspected reference", desc));
+        }
+    }
+}
+
+/// every (bits written, bits read back) pair up to three words, then random multi-phase
+/// histories biased towards exact word multiples
+fn oracle_stack_directed<W: BitArray>(rng: &mut Rng, random_hist: usize, rep: &mut Report) {
+    let w = W::BITS;
+    // non-empty contents first (their failures are the informative ones), emptied coders last
+    for n in 1..=(3 * w + 1) {
+        for r in 0..n {
+            stack_export_variants::<W>(rng, &[(n, r)], rep);
+            if (n - r) % w == 0 {
+                rep.count(&format!("C16.directed.flushed_state.W{}", w));
+            }
+        }
+    }
+    for n in 0..=(3 * w + 1) {
+        stack_export_variants::<W>(rng, &[(n, n)], rep);
+    }
+    // reading more than was written (down to empty and beyond)
+    for n in [0usize, 1, w - 1, w, w + 1, 2 * w] {
+        stack_export_variants::<W>(rng, &[(n, n + 2)], rep);
+    }
+    for _ in 0..random_hist {
+        let mut phases = Vec::new();
+        let mut held = 0usize;
+        for _ in 0..(1 + rng.next() % 3) {
+            let n = rng.below(2 * w as u128 + 3) as usize;
+            held += n;
+            let r = match rng.next() % 4 {
+                0 => held % w,                          // down to a word boundary
+                1 => (held % w + w).min(held),          // one word further
+                2 => held,                              // everything
+                _ => rng.below(held as u128 + 1) as usize,
+            };
+            let r = r.min(held);
+            held -= r;
+            phases.push((n, r));
+        }
+        stack_export_variants::<W>(rng, &phases, rep);
+    }
+    rep.count(&format!("C16.directed.stack.W{}", w));
+}
+
+/// queue: `into_compressed` / `get_compressed` / `into_decoder` after every write count up to
+/// three words (incl. exact word multiples), continuing after an export, decoder reads across
+/// word boundaries, `maybe_exhausted` along the way
+fn oracle_queue_directed<W: BitArray>(rng: &mut Rng, reps: usize, rep: &mut Report) {
+    let w = W::BITS;
+    for n in (1..=(3 * w + 1)).chain(0..1) {
+        for _ in 0..reps {
+            let bs = rand_bits(rng, n);
+            let desc = format!("bits.queue {:x} | new | ws {}", w, show_bits(&bs));
+            let mut padded = bs.clone();
+            while padded.len() % w != 0 {
+                padded.push(false);
+            }
+            // export: zero padded payload, ceil(n / W) words, agrees with len / is_empty and the guard
+            let mut c = queue_of::<W>(&bs);
+            rep.eval("C16");
+            rep.eval("C18");
+            rep.eval("C08");
+            let l = c.len();
+            let e = SymbolCoder::is_empty(&c);
+            let view: Vec<W> = c.get_compressed().to_vec();
+            let l2 = c.len();
+            let v = c.into_compressed().unwrap_infallible();
+            if unpack(&v) != padded || v.len() != n.div_ceil(w) {
+                // format, not C16: the FIFO check through the decoder below is the property
+                rep.count("C16.export_format_differs");
+                rep.sample("C16.export_format_differs", || format!("{} | export => {} (reference: the zero padded bits)", desc, show_words(&v)));
+                // the property itself: the decoder hands out the written bits first, in order
+                let mut d = queue_of::<W>(&bs).into_decoder().unwrap_infallible();
+                let got: Vec<bool> = d.by_ref().map(|b| b.unwrap_infallible()).take(n).collect();
+                if got != bs {
+                    rep.fail("C16", format!("{} | todec | drain => {} expected the written bits first", desc, show_bits(&got)));
+                }
+                continue;
+            }
+            if view != v || l2 != l {
+                rep.fail("C08", format!("{} | getc | len | export => guard {} export {} len {:x} -> {:x}", desc, show_words(&view), show_words(&v), l, l2));
+                continue;
+            }
+            if l != n || e != (n == 0) || e != v.is_empty() {
+                rep.fail("C18", format!("{} | len | empty | export => len {:x} is_empty {} export has {} words", desc, l, e, v.len()));
+                continue;
+            }
+            // continue on the exported words, then decode everything across the word boundaries
+            let more = rand_bits(rng, (rng.0 % (w as u64 + 2)) as usize);
+            let mut c2 = QueueEncoder::<W>::from_compressed(v);
+            rep.eval("C16");
+            if c2.len() != padded.len() {
+                rep.fail("C18", format!("{} | export | len => {:x} expected {:x}", desc, c2.len(), padded.len()));
+                continue;
+            }
+            for &b in &more {
+                c2.write_bit(b).unwrap_infallible();
+            }
+            let mut all = padded.clone();
+            all.extend(more.iter());
+            let total = all.len();
+            while all.len() % w != 0 {
+                all.push(false);
+            }
+            let desc2 = format!("{} | export | ws {} | todec", desc, show_bits(&more));
+            let mut d = c2.into_decoder().unwrap_infallible();
+            let mut ok = true;
+            for (i, &b) in all.iter().enumerate() {
+                // not exhausted while a whole unread word or an unread one bit is left
+                let words_left = all.len() - i > w - (i % w) || (i % w == 0);
+                let one_left = all[i..].iter().any(|&x| x);
+                let m = d.maybe_exhausted();
+                rep.eval("C18");
+                if (one_left || (i % w == 0)) && m {
+                    rep.fail("C18", format!("{} | r*{:x} | mexh => true with unread data left", desc2, i));
+                    ok = false;
+                    break;
+                }
+                let _ = words_left;
+                let got = d.read_bit().unwrap_infallible();
+                if got != Some(b) {
+                    rep.fail("C16", format!("{} | r*{:x} => bit {} is {:?} expected {}", desc2, i + 1, i, got, b));
+                    ok = false;
+                    break;
+                }
+                if i + 1 == total && total % w != 0 {
+                    // consumed precisely the payload: only padding of the current word is left
+                    rep.eval("C18");
+                    if !d.maybe_exhausted() {
+                        rep.fail("C18", format!("{} | r*{:x} | mexh => false after exactly the payload", desc2, i + 1));
+                        ok = false;
+                        break;
+                    }
+                }
+            }
+            if ok {
+                rep.eval("C16");
+                if d.read_bit().unwrap_infallible().is_some() || !d.maybe_exhausted() {
+                    rep.fail("C16", format!("{} | drain | r | mexh => data after the last word / not exhausted", desc2));
+                }
+            }
+        }
+    }
+    rep.count(&format!("C16.directed.queue.W{}", w));
 }
 
 fn check_golomb<N>(n: u32, v: u128, rng: &mut Rng, rep: &mut Report)
@@ -1594,6 +1918,17 @@ where
 
 pub fn oracle(rng: &mut Rng, tier: &str, rep: &mut Report) {
     let thorough = tier == "thorough";
+    // directed cases first: their replays are the shortest
+    let hist = if thorough { 20000 } else { 1000 };
+    oracle_stack_directed::<u8>(rng, hist, rep);
+    oracle_stack_directed::<u16>(rng, hist, rep);
+    oracle_stack_directed::<u32>(rng, hist, rep);
+    oracle_stack_directed::<u64>(rng, hist, rep);
+    let qreps = if thorough { 20 } else { 2 };
+    oracle_queue_directed::<u8>(rng, qreps, rep);
+    oracle_queue_directed::<u16>(rng, qreps, rep);
+    oracle_queue_directed::<u32>(rng, qreps, rep);
+    oracle_queue_directed::<u64>(rng, qreps, rep);
     let iters = if thorough { 20000 } else { 1000 };
     oracle_stack::<u8>(rng, iters, rep);
     oracle_stack::<u16>(rng, iters, rep);
